@@ -8,20 +8,31 @@ PID = "C01"
 PROPS_MODULE = "Props.C01"
 THEOREMS = ["closed_form_solves_ode", "closed_form_initial", "ode_solution_unique", "decay_model_is_closed_form",
             "outside_indices_zero", "default_patterns", "reference_encloses_closed_form"]
-REQUIRED = ["Props/C01.v", "Model/DecayCheck.v"]
+EXTRA_PROPS = {"Props.C01b": ["fl_dot_error", "decay_eval_error"],
+               "Props.C01c": ["rnd64_std_model", "pf_mul_finite", "pf_add_finite", "bq_of_float_value", "pf_yhat_refines"],
+               "Props.C01d": ["default_round_certificate", "lambda_close_sound", "float_decay_error", "default_float_decay_error"]}
+REQUIRED = ["Props/C01.v", "Props/C01b.v", "Props/C01c.v", "Props/C01d.v", "Model/DecayCheck.v", "Model/FloatDecay.v",
+            "Proofs/CertDefault/RoundCert.v", "Proofs/CertDefault/FloatDataCert.v"]
 TRANSLATORS = ["tr_data", "tr_tables", "tr_pure"]
 SHAPE_KEYS = ["Inventory::decay", "AbstractInventory::_setup_decay_calc", "AbstractInventory::_perform_decay_calc",
               "AbstractInventory::_convert_decay_time", "load_dataset", "DecayMatricesScipy"]
-PARTIAL = ["float_forward_error (1e-11 x ancestors' atoms for ALL inputs) is not proved as a rounding-analysis theorem; it is decided per case "
-           "against a PROVED interval enclosure of the exact solution (every radionuclide as single parent in the thorough tier)",
+PARTIAL = ["default_float_decay_error (Props/C01d.v) proves the forward error for ALL inputs with the bound 1e-11 x ALL initial atoms (+2^-1060); "
+           "the property's sharper 'atoms of that nuclide's ancestors' is decided per case against the PROVED interval enclosure of the exact "
+           "solution (every radionuclide as single parent in the thorough tier)",
+           "the theorem is about the primitive-float model Model/FloatDecay.v (tied to the implementation bit for bit per case, with SciPy's accumulation "
+           "orders observed) and assumes each stored exponential is within 2^-50 of exp(-lambda t) (libm; checked per case by interval arithmetic)",
+           "cumulative_decays has no rounding theorem (C03 is per case)",
            "decay() control flow is hand-modelled over R (Model/DecayModel.v): tie = recorded source text + correspondence"]
 TRUSTED_BASE = [
     "Coq 8.16.1 kernel incl. vm_compute",
     "axioms: standard Reals axioms (sig_forall_dec, sig_not_dec, functional_extensionality_dep, classic); Uint63/PrimFloat primitives (Bignums, Interval)",
     "translator tr_data.py (exact and float matrices); tr_shapes.py source-text ties for decay/_setup_decay_calc/_perform_decay_calc",
+    "Flocq (binary64 rounding, PrimFloat <-> binary_float equivalence) for Props/C01c.v; FloatAxioms primitive-float specifications",
     "coq-interval (Interval 4.x) interval arithmetic: correctness lemmas are the library's; the enclosure theorem is Props.C01.reference_encloses_closed_form",
 ]
-ASSUMPTIONS = ["np.exp, SciPy sparse products: any evaluation order (the bound is checked on the result, not on the order)"]
+ASSUMPTIONS = ["numpy.exp accurate to 2^-50 absolute on arguments <= 0 (checked on every case of the bit-level stream)",
+               "SciPy csr_matmat / csr_matvec accumulate sequentially without fused multiply-add, pruning exact zeros (tied bit for bit per case; "
+               "the error theorem holds for every accumulation order)"]
 
 
 def correspondence(ctx):
@@ -38,6 +49,8 @@ def correspondence(ctx):
                    "Inventory.decay: nuclide set = progeny closure, alphabetical, finite, stable activity exactly 0, every amount within "
                    "1e-11 x (atoms of its ancestors) of the proved enclosure of the exact solution; single parents + mixed inventories in every unit",
                    shard=8)
+    import corr_floateval as FE
+    FE.floateval_stream(rng, 400 if thorough else 40, streams, viol, samples)
     return {"streams": streams, "violations": viol, "samples": samples}
 
 
